@@ -35,8 +35,10 @@ OutText(r)  == IF IsE(r) THEN [err |-> r.err] ELSE [ok |-> r.ok]
 OutTyped(r) == IF IsE(r) THEN (IF "errs" \in DOMAIN r THEN [err |-> "any", errs |-> r.errs] ELSE [err |-> r.err, errs |-> {r.err}])
                ELSE [ok |-> Obs(r.ok)]
 OutHas(r)   == IF IsE(r) THEN [err |-> r.err] ELSE [ok |-> r.ok]
-Case(W, amb, cyc) ==
-  [w |-> W, amb |-> amb, cyc |-> cyc,
+RecOut(DS, nc) == IF "RefToAncestorDescends" \in DS /\ nc THEN "overflow" ELSE "returns"
+Case(W, amb, cyc, nc) ==
+  [w |-> W, amb |-> amb, cyc |-> cyc, nodecycle |-> nc,
+   rec |-> LET F(DS) == RecOut(DS, nc) IN Exp(F),
    reads |-> [i \in 1..Len(ReadNames) |->
                LET n == ReadNames[i] IN
                [name |-> n,
@@ -79,10 +81,18 @@ CyclicOf(ea, eb, ec, ek) ==
       Rch(X, k) == IF k = 0 THEN X ELSE Rch(X \cup UNION {sc(x) : x \in X}, k-1)
   IN \E n \in {"a", "b", "c", "n.k", "n"} : n \in Rch(sc(n), 6)
 
+\* the setting n.k leads back to its own ancestor n (n: {k: ${n}}, possibly through other settings): unpacking n into a
+\* RECURSIVE struct type (type T struct{ K *T }) must end with the cyclic-reference error like every other read
+NodeCycleOf(ea, eb, ec, ek) ==
+  LET ex(n) == CASE n = "a" -> ea [] n = "b" -> eb [] n = "c" -> ec [] n = "n.k" -> ek [] OTHER -> Lit("")
+      sc(n) == IF n = "n" THEN {"n.k"} ELSE {Base(x) : x \in {y \in RefsOfE(ex(n)) : Base(y) \in {"a", "b", "c", "n.k", "n"}}}
+      RECURSIVE Rch(_,_)
+      Rch(X, k) == IF k = 0 THEN X ELSE Rch(X \cup UNION {sc(x) : x \in X}, k-1)
+  IN "n" \in Rch(sc("n.k"), 6)
 Init == va \in cShapesA /\ ph = 0 /\ cs = <<>>
 Next == /\ ph = 0 /\ ph' = 1 /\ va' = va
         /\ \E eb \in cShapesB, ec \in cShapesC, ek \in cShapesK, envs \in cEnvSets, res \in cResSets :
-              cs' = <<eb, ec, ek, envs, res>> /\ PrintT(ToJson(Case(World(va, eb, ec, ek, envs, res), AmbiguousOf(va, eb, ec, ek), CyclicOf(va, eb, ec, ek))))
+              cs' = <<eb, ec, ek, envs, res>> /\ PrintT(ToJson(Case(World(va, eb, ec, ek, envs, res), AmbiguousOf(va, eb, ec, ek), CyclicOf(va, eb, ec, ek), NodeCycleOf(va, eb, ec, ek))))
 View == <<va, ph>>
 
 (* ---- model-level statements (checked by MC runs of this module, no VIEW) ------------- *)
@@ -141,6 +151,8 @@ EnvsQuick == {<<>>, <<E1, E2>>}
 R0 == [x \in {} |-> ""]
 R1 == ("m" :> "r1") @@ ("a" :> "ra") @@ ("q.k" :> "rq")
 R2 == ("m" :> "r2")
-ResAll == {<<>>, <<R0>>, <<R1>>, <<R1, R2>>, <<R2, R1>>}
-ResQuick == {<<>>, <<R0>>, <<R1, R2>>}
+\* texts that the value parser turns into something else than a string: a number and (top-level comma) a list
+R3 == ("m" :> "7") @@ ("a" :> "p,q") @@ ("q.k" :> "true")
+ResAll == {<<>>, <<R0>>, <<R1>>, <<R1, R2>>, <<R2, R1>>, <<R3>>, <<R1, R3>>}
+ResQuick == {<<>>, <<R0>>, <<R1, R2>>, <<R3>>}
 ==========================================================================
